@@ -135,7 +135,8 @@ def handle(c):
                 if key[0] == 'J' and key[1] == 'rev' and str(cfg.get('lin', '')).startswith('direct') \
                         and cfg.get('jac') is None:
                     out['sig'] = 'direct-rev-nonassembled-scaled'
-        if k == 0:
+        if k == 0 and not cfg.get('approx'):
+            # (finite-difference groups are not what the C01 model describes: approx cases are oracle-only)
             flat2 = sg.flatten(s2)
             arrays = scaling_arrays(obs['prob'], s2, flat2)
             out['res'] = [[[q(v) for v in a] for a in arrays],
